@@ -425,3 +425,42 @@ def comment_layout_job(rng):
             src = "a{d{" + col + comment + " b:c}}" if syn == "scss" else "@supports (x:y){a{" + col + comment + " b:c}}"
     opts = {"syntax": syn, "style": rng.choice([None, "compressed"]), "quiet": True}
     return src, opts
+
+
+# --------------------------------------------------------------------------------------------
+# a fixed family of byte strings that are not UTF-8 (deterministic: runs in every tier)
+# --------------------------------------------------------------------------------------------
+
+NON_UTF8_FAMILY = [
+    ("lone-continuation", "80"), ("lone-continuation-mid", "61 80 62"), ("two-continuations-end", "61 80 80"),
+    ("invalid-lead-C0", "C0 80"), ("invalid-lead-C0-end", "61 C0"), ("invalid-lead-C1", "61 C1 BF 62"), ("invalid-lead-F5", "61 F5 80 80 80 62"),
+    ("invalid-lead-F5-end", "61 F5"), ("invalid-lead-FF", "FF"), ("invalid-lead-FF-mid", "61 7B 62 3A FF 7D"), ("invalid-lead-FE-FF", "FE FF 61"),
+    ("invalid-byte-mid", "61 7B 62 3A 63 FF 64 7D"), ("surrogate-ED-A0-80", "61 ED A0 80 62"), ("overlong-E0-80-80", "E0 80 80"),
+    ("beyond-F4-90", "61 F4 90 80 80"), ("bad-second-byte", "61 E2 28 A1"), ("bad-third-byte", "61 E2 82 28"),
+    ("truncated-2-at-end", "61 C3"), ("truncated-2-only", "C3"), ("truncated-3-at-end-1", "61 E2"), ("truncated-3-at-end-2", "61 E2 82"),
+    ("truncated-3-only", "E2 82"), ("truncated-4-at-end-1", "61 F0"), ("truncated-4-at-end-2", "F0 9F"), ("truncated-4-at-end-3", "61 7B 7D F0 9F 98"),
+    ("truncated-after-rule", "61 7B 62 3A 63 7D 0A E2 82"), ("truncated-after-newline", "0A C3"), ("truncated-in-comment-at-end", "2F 2A 20 F0 9F"),
+    ("truncated-in-string-at-end", "61 7B 62 3A 22 E2 82"),
+    ("truncated-2-then-ascii", "61 C3 62"), ("truncated-3-then-ascii", "61 E2 82 62 7B 7D"), ("truncated-4-then-ascii", "F0 9F 98 61 7B 62 3A 63 7D"),
+    ("truncated-then-newline", "61 E2 82 0A"), ("bom-then-truncated", "EF BB BF 61 E2"), ("truncated-bom", "EF BB"),
+    ("valid-then-invalid-then-valid", "C3 A9 FF C3 A9"), ("nul-then-truncated", "00 C3"),
+]
+
+
+def non_utf8_jobs():
+    """[(label, files, entry)]: every member of the family as the entry file and as a file reached through
+    @import, @use, @forward and meta.load-css, for the three syntaxes (chosen by the file extension)."""
+    out = []
+    for label, hx in NON_UTF8_FAMILY:
+        h = hx.replace(" ", "").lower()
+        for ext in ("scss", "sass", "css"):
+            out.append((f"{label}:entry.{ext}", {"in." + ext: {"hex": h}}, "in." + ext))
+            dep = {"dep." + ext: {"hex": h}}
+            out.append((f"{label}:import.{ext}", dict(dep, **{"main.scss": '@import "dep";\nz{y:x}\n'}), "main.scss"))
+            out.append((f"{label}:nested-import.{ext}", dict(dep, **{"main.scss": 'w{@import "dep";}\n'}), "main.scss"))
+            out.append((f"{label}:use.{ext}", dict(dep, **{"main.scss": '@use "dep";\nz{y:x}\n'}), "main.scss"))
+            out.append((f"{label}:forward.{ext}", dict(dep, **{"main.scss": '@forward "dep";\nz{y:x}\n'}), "main.scss"))
+            out.append((f"{label}:load-css.{ext}", dict(dep, **{"main.scss": '@use "sass:meta";\nz{@include meta.load-css("dep")}\n'}), "main.scss"))
+            out.append((f"{label}:sass-import.{ext}", dict(dep, **{"main.sass": '@import "dep"\nz\n  y: x\n'}), "main.sass"))
+            out.append((f"{label}:chain.{ext}", dict(dep, **{"mid.scss": '@forward "dep";\n', "main.scss": '@use "mid";\nz{y:x}\n'}), "main.scss"))
+    return out
